@@ -68,7 +68,13 @@ class C14(Prop):
                 c["nested"] = False
             else:
                 c = gen_nested_interrupt(rng)
-            yield {"program": c["program"], "values": c["values"], "nested": c["nested"], "seed": rng.randint(0, 10**6),
+            cfg: dict = {}
+            if not c["nested"] and rng.random() < 0.3:
+                # a selection naming outputs that do not exist yet when the run pauses, under every on_missing policy: a pause is not a
+                # completed run with missing outputs
+                outs = list(dict.fromkeys(o for n in c["program"][-1]["nodes"] for o in n.get("dataOuts", [])))
+                cfg = {"select": rng.sample(outs, rng.randint(1, min(3, len(outs)))), "onMissing": rng.choice(["error", "error", "warn", "ignore"])}
+            yield {"program": c["program"], "values": c["values"], "nested": c["nested"], "seed": rng.randint(0, 10**6), "cfg": cfg,
                    # responses include falsy values: "was a response supplied" is a question of presence, not of truthiness
                    "responses": [rng.choice([0, False, "", {"l": []}, rng.randint(30, 60), rng.randint(30, 60)]) for _ in range(4)]}
 
@@ -104,7 +110,7 @@ class C14(Prop):
     def impl(self, case: dict) -> Any:
         def run(program: list[dict], values: list, i: int) -> dict:
             ctl = sched.Controller("random", case["seed"] + i)
-            return impl.run_case(program, None, values, {}, "async", ctl=ctl)
+            return impl.run_case(program, None, values, case.get("cfg", {}), "async", ctl=ctl)
 
         hist = self._history(case, run)
         # the same program with every pausing handler answering directly with the response the history gave
@@ -115,7 +121,7 @@ class C14(Prop):
                     path_names = [k for k in hist["answers"] if k.split("/")[-1] == n["name"]]
                     if path_names:
                         n["body"] = {"b": "const", "v": hist["answers"][path_names[0]]}
-        hist["auto"] = impl.run_case(auto, None, case["values"], {}, "async", ctl=sched.Controller("random", case["seed"]))
+        hist["auto"] = impl.run_case(auto, None, case["values"], case.get("cfg", {}), "async", ctl=sched.Controller("random", case["seed"]))
         return hist
 
     def oracle(self, case: dict, obs: Any) -> str | None:
@@ -152,7 +158,8 @@ class C14(Prop):
             have = {k for k, _ in o["values"]}
             for n in case["program"][-1]["nodes"]:
                 if n["kind"] == "fn" and any(f == f"{top}:{n['name']}" for f, _ in o["calls"]):
-                    lost = [x for x in n.get("dataOuts", []) if x not in have]
+                    sel = case.get("cfg", {}).get("select")
+                    lost = [x for x in n.get("dataOuts", []) if x not in have and (sel is None or x in sel)]
                     if lost:
                         note = " (step sibling of a nested pause)" if case["nested"] and len(p["node"].split("/")) > 1 else ""
                         return f"paused at {p['node']!r}: node {n['name']!r} ran in this run but its output {lost[0]!r} is not among the returned values" + note
@@ -191,7 +198,7 @@ class C14(Prop):
     # ---------------------------------------------------------------- model
     def model(self, case: dict, driver: Any) -> Any:
         def run(program: list[dict], values: list, i: int) -> dict:
-            m = impl.model_obs(driver.ask({"op": "run", "program": program, "values": values, "runner": "async"}))
+            m = impl.model_obs(driver.ask({"op": "run", "program": program, "values": values, "runner": "async", "cfg": case.get("cfg", {})}))
             if m["pause"] is not None:
                 p = m["pause"]
                 parts = p["node"].split("/")
